@@ -288,13 +288,20 @@ class ParseContext(ParserEngine):
 
     def isolate(self, exp: Func) -> Any:
         self.states.push()
+        cutseen = False
         try:
             self.expcall(exp)
             return cstfinal(self.cst)
+        except FailedParse:
+            cutseen = self.state.cutseen
+            raise
         finally:
             ast = self.ast
             self.states.pop()
             self.ast = ast
+            if cutseen:
+                # a failure after a cut commits the enclosing iteration
+                self.state.cutseen = True
 
     _isolate = isolate
 
